@@ -331,6 +331,9 @@ class BaseRequest:
         return self._headers
 
     def _headers__set(self, value):
+        # take the new headers first: ``value`` may be a view of (or an
+        # iterator over) these very headers, empty once they are cleared
+        value = dict(value)
         self.headers.clear()
         self.headers.update(value)
 
